@@ -32,6 +32,12 @@ func c01(tier string) []*explore.Scenario {
 	if tier == "thorough" {
 		out = append(out, c01Direct(64, po, 0, false), c01Direct(16, po, 1, false), c01Direct(3, po, 2, true))
 	}
+	// payloads above 1 KiB (the codec's pooled buffers) with calls in flight at once
+	for _, ser := range []bool{false, true} {
+		out = append(out, c01DirectSize(2, env.PipeOpts{Cap: 64, Serialize: ser}, 2, false, 1500))
+		out = append(out, c01DirectSize(3, env.PipeOpts{Cap: 64, Serialize: ser}, 1, false, 4000))
+		out = append(out, c01DirectSize(2, env.PipeOpts{Cap: 0, Serialize: ser}, 1, false, 70000))
+	}
 	out = append(out, c01Payloads(po), c01Payloads(env.PipeOpts{Cap: 0}))
 	out = append(out, c01Seq(po))
 	return out
@@ -132,13 +138,19 @@ func checkUnary(r *env.Rec, data, fam string) {
 }
 
 func c01Direct(k int, po env.PipeOpts, bound int, duringStartup bool) *explore.Scenario {
+	return c01DirectSize(k, po, bound, duringStartup, 0)
+}
+
+// size > 0: request and reply payloads of that many bytes, different for every call.
+func c01DirectSize(k int, po env.PipeOpts, bound int, duringStartup bool, size int) *explore.Scenario {
 	return &explore.Scenario{
-		Name:   fmt.Sprintf("C01/direct/k=%d/cap=%d/ser=%v/startup=%v", k, po.Cap, po.Serialize, duringStartup),
+		Name:   fmt.Sprintf("C01/direct/k=%d/cap=%d/ser=%v/startup=%v/size=%d", k, po.Cap, po.Serialize, duringStartup, size),
 		Family: "C01/direct",
 		Prop:   "C01",
 		Bound:  bound,
 		Run: func() {
 			w := env.NewWorld()
+			env.MsgSize = size
 			if duringStartup {
 				vsched.Explore(true)
 			}
@@ -151,11 +163,11 @@ func c01Direct(k int, po env.PipeOpts, bound int, duringStartup bool) *explore.S
 			for i := 0; i < k; i++ {
 				r := w.Rec(fmt.Sprintf("c%d", i), "Unary")
 				rs = append(rs, r)
-				vsched.GoNamed("caller-"+r.Tag, func() { w.CallUnary(d.CC, context.Background(), r, "x") })
+				vsched.GoNamed("caller-"+r.Tag, func() { w.CallUnary(d.CC, context.Background(), r, env.Pad("x"+r.Tag)) })
 			}
 			vsched.Quiesce()
 			for _, r := range rs {
-				checkUnary(r, "x", "C01/direct")
+				checkUnary(r, env.Pad("x"+r.Tag), "C01/direct")
 			}
 			finishDirect(d, w, true)
 		},
